@@ -288,7 +288,7 @@ PROPS = {
   theorems="Jp.C19.* (every listed operation yields a view/pass-through; Token.new / decoded build a buffer iff a special byte is present)",
   partial="the allocator is runtime behaviour: which Rust expressions allocate is a hand annotation in the model, validated per call (zero / non-zero) by the counting allocator",
  ),
- "C20": dict(ops={}, rule="all 256 feature subsets", theorems="Jp.C20.all_subsets_build"),
+ "C20": dict(ops={}, rule="all 2^n subsets of the features Cargo.toml declares (256 on the pinned tree)", theorems="Jp.C20.all_subsets_build"),
 }
 
 SPECIAL = re.compile(r"7e|2f|[c-f][0-9a-f]")   # '~', '/', or a UTF-8 lead byte, at byte alignment (approximate)
